@@ -25,7 +25,7 @@ func init() {
 			"on error / unknown-dedicated results.",
 		NotCovered: "parsing of identifiers from TLS server names, URL paths, userinfo and EDNS options (string work); " +
 			"the profile database's own lookups (C14); the password-hash comparison itself.",
-		Rules: map[string]string{
+		Rules: map[string]string{"C03-R13": "per-element objects built in conversion loops (server groups, devices) take no slice accumulated over earlier elements",
 			"C03-R1":  "decision tree of Find equals the reference (channel precedence, deleted profile, authentication table)",
 			"C03-R2":  "supportsDeviceID table",
 			"C03-R3":  "who may construct *agd.DeviceResultOK",
@@ -46,6 +46,10 @@ func init() {
 const dfPkg = "dnssvc/internal/devicefinder."
 
 func runC03(c *an.Ctx) {
+	// ---- R13: what is configured for one server group (its device-ID domains) is not carried over to the next
+	if n := sharedNoLoopCarried(c, "C03-R13", "cmd.", "backendpb.", "profiledb", "dnssvc."); n >= 0 {
+		c.Ok("C03-R13", "per-element objects of the configuration and profile conversions take no cross-iteration accumulator", token.NoPos, "%d loops with a slice accumulator examined", n)
+	}
 	dnssvcWiring(c, "C03-R12", func(dst, src string) bool {
 		n := normName(dst) + " " + normName(src)
 		return strings.Contains(n, "profiledb") || strings.Contains(n, "devicedomains") || strings.Contains(n, "humanidparser") || strings.Contains(n, "devicefinder")
